@@ -67,6 +67,8 @@ class Harness:
         self.expect = (ann.get('expect') or ['pass'])[0].strip()
         self.timeout = int((ann.get('timeout') or ['600'])[0])
         self.replay = (ann.get('replay') or ['native'])[0].strip()
+        # extra cargo-kani flags for this harness (`// @kani_args ...`); the reach-check flag is global already
+        self.kani_args = ' '.join(a for a in ' '.join(ann.get('kani_args', [])).split() if a != '--no-assertion-reach-checks')
 
     def meta(self):
         keys = ['fn', 'sym', 'bound', 'stub', 'assume', 'outside', 'assert']
@@ -188,7 +190,7 @@ class Scratch:
 def kani_cmd(h, tgt, extra=''):
     feat = ('--features ' + h.features) if h.features else ''
     return ('cargo kani -p %s %s --harness %s --exact -Z stubbing --no-assertion-reach-checks --output-format terse --target-dir %s %s %s'
-            % (h.package, feat, h.full, tgt, os.environ.get('VERIF_KANI_EXTRA', ''), extra))
+            % (h.package, feat, h.full, tgt, (os.environ.get('VERIF_KANI_EXTRA', '') + ' ' + h.kani_args).strip(), extra))
 
 
 def build_group(scr, package, features):
